@@ -182,7 +182,7 @@ class Gen:
         if self.chance("p_cc"):
             cc = rng.choice(CCS)
             attrs.append('calling_convention("%s")' % cc)
-        has_self = force_self if force_self is not None else (True if vfunc else rng.random() < 0.7)
+        has_self = force_self if force_self is not None else ((rng.random() < 0.88) if vfunc else rng.random() < 0.7)
         args = []
         selfkind = None
         if has_self:
